@@ -257,10 +257,13 @@ def run(ck):
     if rcc.returncode:
         raise RuntimeError('h_interleave build failed: ' + rcc.stderr.decode()[:300])
     open(os.path.join(idr, 'snoopy.ini'), 'w').write('[snoopy]\nmessage_format = "%{cmdline}"\ndatasource_message_max_length = 16k\noutput = stdout\n')
-    rv = sh([os.path.join(idr, 'interleave')], env=dict(_CE, LD_PRELOAD=so['so'], VERIF_SNOOPY_INI=os.path.join(idr, 'snoopy.ini')), cwd=idr, timeout=120)
-    if rv.returncode not in (0, 1):
-        raise RuntimeError('h_interleave could not reach its schedule (status %s): %s' % (rv.returncode, rv.stderr.decode()[-300:]))
-    if rv.returncode == 1:
+    from engine.common import run_fixed_schedule
+    iv, rv = run_fixed_schedule([os.path.join(idr, 'interleave')], dict(_CE, LD_PRELOAD=so['so'], VERIF_SNOOPY_INI=os.path.join(idr, 'snoopy.ini')), cwd=idr,
+                                setup=tuple(x for x in range(2, 256)) + (-6, -9, -11))
+    if iv == 'not_reached':
+        ck.capped = True
+        ck.assumptions.append('fixed schedule h_interleave could not be arranged on this (busy) machine in 3 attempts: not evaluated in this run')
+    if iv == 'violation':
         ck.violation('C09:records_of_two_threads_mixed_on_stdout:nearly_full_pipe:records_longer_than_PIPE_BUF', {'stderr': rv.stderr.decode()[-500:]})
     ck.coverage(states=len(outs) + stats.get('hashed_states', 0), transitions=total, traces_validated_against_impl=total, evaluations=total, distinct_nontrivial=len(outs),
                 rule='all schedules within the preemption bound per campaign, one process each; distinct = distinct (campaign, record order with thread counts) observed',
